@@ -12,11 +12,14 @@ def _start(which: str):
     env.pop("BIGTREE_CONF_ASSERTIONS", None)
     if which == "off":
         env["BIGTREE_CONF_ASSERTIONS"] = ""
-    p = subprocess.Popen([sys.executable, os.path.join(HERE, "_twoproc_worker.py")], stdin=subprocess.PIPE,
+    # "onO": the default configuration in an optimising interpreter (python -O, variable unset): the checks are
+    # documented to be on unless BIGTREE_CONF_ASSERTIONS says otherwise; what it reports is compared, not assumed
+    flags = ["-O"] if which == "onO" else []
+    p = subprocess.Popen([sys.executable] + flags + [os.path.join(HERE, "_twoproc_worker.py")], stdin=subprocess.PIPE,
                          stdout=subprocess.PIPE, text=True, env=env, bufsize=1)
     hello = json.loads(p.stdout.readline())
     want = which == "on"
-    if hello.get("assertions") is not want or hello.get("basenode") is not want:
+    if which != "onO" and (hello.get("assertions") is not want or hello.get("basenode") is not want):
         raise RuntimeError(f"worker '{which}' imported bigtree with ASSERTIONS={hello}")
     _PROCS[which] = p
     return p
